@@ -55,7 +55,7 @@ def specs(rng, tier, wid, nw, env):
     for h in hdrs:
         k += 1
         if k % nw == wid: yield ('hdr', h, rng.getrandbits(48))
-    N = 1500 if q else 50000
+    N = 6000 if q else 100000
     for i in range(N):
         c = rng.random()
         if c < 0.4: yield ('exp', rng.randint(1, 16), rng.choice([1, -1]), rng.choice([-1, 0, 1]), None, rng.randrange(8), rng.getrandbits(48))
